@@ -39,6 +39,9 @@ type HTTPRecord struct {
 	ReqBody  []byte
 	RespBody []byte
 	Location string
+	// ReqHeader / RespHeader hold the headers in wire form (only with KeepBodies).
+	ReqHeader  string
+	RespHeader string
 }
 
 // HTTPHandler serves a request in-process (a node's router or a scripted remote server).
@@ -151,6 +154,7 @@ func (h *HTTP) RoundTrip(req *http.Request) (*http.Response, error) {
 	}
 	if h.KeepBodies {
 		rec.ReqBody = body
+		rec.ReqHeader = headerString(req.Header)
 	}
 	r2 := req.Clone(req.Context())
 	r2.Body = io.NopCloser(bytes.NewReader(body))
@@ -168,6 +172,7 @@ func (h *HTTP) RoundTrip(req *http.Request) (*http.Response, error) {
 	}
 	if h.KeepBodies {
 		rec.RespBody = respBody
+		rec.RespHeader = headerString(resp.Header)
 	}
 	resp.Body = io.NopCloser(bytes.NewReader(respBody))
 	resp.ContentLength = int64(len(respBody))
@@ -187,6 +192,12 @@ func (h *HTTP) RoundTrip(req *http.Request) (*http.Response, error) {
 	}
 	h.S.Yield("http-done " + site)
 	return finish(resp, nil)
+}
+
+func headerString(h http.Header) string {
+	var b bytes.Buffer
+	_ = h.Write(&b)
+	return b.String()
 }
 
 // pathClass shortens a path to a stable label (identifiers and secrets removed).
